@@ -8,3 +8,5 @@ fn p(s: &str) { let parser = CooklangParser::new(Extensions::all(), Converter::d
 #[test] fn d4_aisle() { let _ = cooklang::aisle::parse("[a]\n|"); }
 // d9 (fixed by 499bf89): before the fix this printed a warning for the effective lock
 #[test] fn d9_effective_scaling_lock_warns() { let parser = CooklangParser::new(Extensions::all(), Converter::default()); let r = parser.parse("@flour{=100%g}\n"); assert_eq!(r.report().iter().count(), 0, "a well-formed recipe must not produce a warning"); }
+// d10 (fixed by 882e953): before the fix this panicked with "attempt to add with overflow" (debug) or returned a wrapped number (release)
+#[test] fn d10_time_total_overflow() { let parser = CooklangParser::new(Extensions::all(), Converter::default()); let r = parser.parse("---\nprep time: 4294967295\ncook time: 4294967295\n---\nstep"); let (recipe, _) = r.into_result().unwrap(); let t = recipe.metadata.time(&Converter::default()).unwrap(); assert_eq!(t.total(), u32::MAX); }
